@@ -749,14 +749,14 @@ func runC02(r *fw.Run) {
 func init() {
 	fw.Register(&fw.Engine{
 		ID: "C03", Level: "exploration",
-		Rule: "a case = one client connection making 1..5 calls through a recording proxy to a real Service on one of the four transports (filesystem unix socket, abstract unix socket, TCP, bridge subprocess via NewBridge) in one of three call styles (Call; Send+receive; Send with more + a sequence of 1,2,3,5,9 or 17 replies). Parameters are generated JSON objects (integers beyond 2^53 and 2^64, exponents, -0, 1.0e+2, empty objects/arrays, null members, unicode incl. NUL escapes, surrogate pairs, U+2028) passed as json.RawMessage, as map[string]interface{} with json.Number, or as a typed struct; each reply's parameters are generated the same way. Oracle: what the handler read (GetParameters into json.RawMessage) is number-exactly JSON-equal to what the client passed; what receive/Call yielded (into *json.RawMessage) is number-exactly JSON-equal to what the handler replied, for every reply of a more-sequence, with Continues set on all but the last. The proxy forwards unchanged, byte-wise, or in random pieces. distinct by hash of transport + calls; all cases non-trivial (>= 1 generated document each way).",
+		Rule: "a case = one client connection making 1..5 calls through a recording proxy to a real Service on one of the four transports (filesystem unix socket, abstract unix socket, TCP, bridge subprocess via NewBridge) in one of three call styles (Call; Send+receive; Send with more + a sequence of 1,2,3,5,9 or 17 replies). Parameters are generated JSON objects (integers beyond 2^53 and 2^64, exponents, -0, 1.0e+2, empty objects/arrays, null members, unicode incl. NUL escapes, surrogate pairs, U+2028) passed as json.RawMessage, as map[string]interface{} with json.Number, or as a typed struct; each reply's parameters are generated the same way. Oracle: what the handler read (GetParameters into json.RawMessage) is number-exactly JSON-equal to what the client passed; what receive/Call yielded (into *json.RawMessage) is number-exactly JSON-equal to what the handler replied, for every reply of a more-sequence, with Continues set on all but the last. The proxy forwards unchanged, byte-wise, or in random pieces. distinct by hash of transport + calls; all cases non-trivial (>= 1 generated document each way). Also per transport: a reply followed by the service closing the connection, read late by the client; two calls in flight (Send, Send, receive..., receive...); a monitor-style handler that sends continues-replies and then waits for an event (the client must get them while it waits); Connection.Close bounded at 15 s.",
 		Assumptions: []string{"number fidelity is asserted for callers that receive into json.RawMessage (decoding into interface{} is the caller's own loss)", "an absent parameters member equals {}"},
 		Run:         runC03, Replay: replayPair("C03", false), CrashIsViolation: true, MinEvals: 50,
 		QuickTimeout: 15 * time.Minute, ThoroughTimeout: 60 * time.Minute,
 	})
 	fw.Register(&fw.Engine{
 		ID: "C02", Level: "exploration",
-		Rule: "Part A (emission + reception through a recording proxy, unix and TCP): generated call lists as in C03 plus message sizes 0..1 MiB (thorough: 8 MiB) placed around the 4096-byte reader buffer, nesting depth up to 2000, strings with escaped NUL, quotes, every C0 control, U+2028/9, non-BMP; each list is run under 3 proxy re-segmentations (as read, one byte per write, random pieces incl. 4095/4096/4097). Wire oracle on both captured directions: the stream ends with NUL, splitting at NUL yields exactly as many chunks as messages were sent, every chunk is valid JSON whose first non-blank byte is '{'; value oracle as in C03, identical under all re-segmentations. Part B (service reception): raw client writes call sequences with pads around 4096/8192/70000 bytes under 5 exact partitions (one write, byte-wise, random cuts with pauses, one write per frame, cuts at 4095/4096/4097/8191/8192/8193); handler log and replies must equal the sequential model. Part C (client reception): scripted raw server plays reply streams under the same 5 partitions; every receive must yield exactly the next frame. distinct by hash of (part, partition, content).",
+		Rule: "Part A (emission + reception through a recording proxy, unix and TCP): generated call lists as in C03 plus message sizes 0..1 MiB (thorough: 8 MiB) placed around the 4096-byte reader buffer, nesting depth up to 2000, strings with escaped NUL, quotes, every C0 control, U+2028/9, non-BMP; each list is run under 3 proxy re-segmentations (as read, one byte per write, random pieces incl. 4095/4096/4097). Wire oracle on both captured directions: the stream ends with NUL, splitting at NUL yields exactly as many chunks as messages were sent, every chunk is valid JSON whose first non-blank byte is '{'; value oracle as in C03, identical under all re-segmentations. Part B (service reception): raw client writes call sequences with pads around 4096/8192/70000 bytes under 5 exact partitions (one write, byte-wise, random cuts with pauses, one write per frame, cuts at 4095/4096/4097/8191/8192/8193); handler log and replies must equal the sequential model. Part C (client reception): scripted raw server plays reply streams under the same 5 partitions; every receive must yield exactly the next frame. distinct by hash of (part, partition, content). Part B runs three connections at a time; Part B2: twelve connections whose replies are larger than the socket buffer, slow readers, GOMAXPROCS(2); a reply whose halves arrive 450 ms apart after an earlier call with a 300 ms deadline; 400 ms pauses inside and between frames against a service with a 150 ms idle timeout.",
 		Assumptions: []string{"callers pass valid UTF-8 (invalid UTF-8 cannot be represented in a Go string that encoding/json round-trips)"},
 		Run:         runC02, Replay: replayPair("C02", true), CrashIsViolation: true, MinEvals: 50,
 		QuickTimeout: 15 * time.Minute, ThoroughTimeout: 60 * time.Minute,
